@@ -1,14 +1,35 @@
 /-
-  C30, three nodes: every fault-free execution of a fresh 3-node cluster elects exactly one leader
-  (all others following it, nothing in flight) within 16 steps. Kernel evaluation of the verified
-  breadth-first explorer over all delivery orders (447 distinct states); this module takes a few
-  minutes to check, which is why it is separate from Props/C30.lean.
+  C30, three nodes, part 1 (election): every fault-free execution of a fresh 3-node cluster (client
+  payload 5 waiting) reaches, within 13 steps, one of the two quiescent post-election states
+  `n3PostA` / `n3PostB` (node 0 leader of term 1, nodes 1 and 2 its followers, nothing in flight; the
+  two differ only in bookkeeping left by the order of the last answers). Kernel evaluation of the
+  verified breadth-first explorer over all delivery orders (≈450 distinct states); this module takes
+  about 3 minutes to check, which is why it is separate. Part 2: Props/C30n3r.lean.
 -/
 import AgdbRaft.Props.C30
 
 namespace Raft
 
-theorem C30_n3_election : ReachesWithin 1 (FState.init 3 2 2 6 Variant.fixed []) 16 :=
-  exploreSet_sound 1 16 [FState.init 3 2 2 6 Variant.fixed []] (by decide +kernel) _ (List.mem_singleton.mpr rfl)
+def n3Init : FState := FState.init 3 2 2 6 Variant.fixed [5]
+def n3PostA : FState := n3Init.follow 1 [0, 1, 1, 1, 2, 2, 3, 1, 0, 0, 0, 1, 0]
+def n3PostB : FState := n3Init.follow 1 [0, 1, 1, 2, 2, 1, 0, 2, 1, 2, 0, 1, 0]
+
+/-- membership in `{n3PostA, n3PostB}` (the literal numbers are `FState.key` fingerprints used only to
+skip the structural comparison for states that cannot be equal) -/
+def n3Post (s : FState) : Bool :=
+  (s.key == 7746771797915045215992069358957432555649223717609494840041020373102144424235694437164936672335932414521384595254164848641
+      && decide (s = n3PostA)) ||
+  (s.key == 7746771797915045215992069358957432555649223717609494840041020373102144424235693043368361764171986068538992555831082352641
+      && decide (s = n3PostB))
+
+theorem n3Post_iff {s : FState} (h : n3Post s = true) : s = n3PostA ∨ s = n3PostB := by
+  unfold n3Post at h
+  simp only [Bool.or_eq_true, Bool.and_eq_true, decide_eq_true_eq] at h
+  rcases h with h | h
+  · exact Or.inl h.2
+  · exact Or.inr h.2
+
+theorem C30_n3_election : ReachesWithinP n3Post 1 n3Init 13 :=
+  exploreSetP_sound n3Post 1 13 [n3Init] (by decide +kernel) _ (List.mem_singleton.mpr rfl)
 
 end Raft
